@@ -17,7 +17,7 @@ InjRecs(u) == LET B == SetToSeq(PatSetOf(0))
            IN [q \in 1..Len(S) |-> [id |-> q, ast |-> S[q].ast, base |-> S[q].base, ng |-> S[q].ng]]
 Sig == CASE IOEnv.VH_SIG = "sig6" -> SIG6
          [] IOEnv.VH_SIG = "case4" -> <<"a", "A", "b", "B">>
-         [] IOEnv.VH_SIG = "wide" -> <<"a", "E", "T", "Q", "N">>
+         [] IOEnv.VH_SIG = "wide" -> <<"a", "E", "K", "T", "Q", "N">>
          [] IOEnv.VH_SIG = "ab" -> <<"a", "b">>
 TextRecs(u) == LET S == TextsUpTo(Sig, NN) IN [q \in 1..Len(S) |-> [t |-> S[q]]]
 
